@@ -59,4 +59,5 @@ def run(ctx, res):
     lookup.rule_endgame_covers(ctx, res)
     lookup.rule_round_nonempty(ctx, res)
     lookup.rule_initial_pick(ctx, res)
+    lookup.rule_initial_marks(ctx, res)
     common.rule_send_transmits(ctx, res)
